@@ -81,6 +81,8 @@ def is_symbolic(x):
 
 # ------------------------------------------------------------------ conversions
 def _real(x):
+    if type(x).__module__ == "numpy":  # numpy scalar that slipped in through an index / broadcast
+        x = x.item()
     if is_sym(x):
         if z3.is_int(x):
             return z3.ToReal(x)
@@ -212,6 +214,19 @@ def _f_sub(a, b):
     return _arith(a, b, lambda x, y: x - y)
 
 
+MULC_APPS = []  # (a, b, mulc(a,b)) recorded while OPAQUE_MUL is on
+
+
+def unit_factor_axioms(is_unit):
+    """sound bounds for opaque products with a factor known to lie in [0,1): 0 <= |a*t| <= |a|, same sign as a"""
+    ax = []
+    for ra, rb, app in MULC_APPS:
+        for t_, o_ in ((ra, rb), (rb, ra)):
+            if is_unit(t_):
+                ax.append(z3.If(o_ >= 0, z3.And(app >= 0, app <= o_), z3.And(app <= 0, app >= o_)))
+    return ax
+
+
 OPAQUE_MUL = [False]  # when set, symbolic*symbolic real products become a commutative uninterpreted function
 
 
@@ -220,7 +235,9 @@ def _f_mul(a, b):
         ra, rb = _real(a), _real(b)
         if ra.get_id() > rb.get_id():
             ra, rb = rb, ra
-        return _MULC(ra, rb)
+        app = _MULC(ra, rb)
+        MULC_APPS.append((ra, rb, app))
+        return app
     if _is_bool_like(a) and is_sym(a):
         return s_where(a, b, 0.0 if _is_float_like(b) else 0)
     if _is_bool_like(b) and is_sym(b):
